@@ -1370,6 +1370,37 @@ def run(tier, replay=None):
                        'the order of the conjuncts'})
         break
 
+  # --- documented result types of aggregates and built-ins: exact signature, and the value returned inhabits it
+  BUILTIN_CASES = [
+      ('Best() ArgMax= n -> v :- S(n, v);', 'Best', 'Str'), ('Worst() ArgMin= n -> v :- S(n, v);', 'Worst', 'Str'),
+      ('B2(x) = ArgMaxK(x, 2);\nTop() B2= n -> v :- S(n, v);', 'Top', ['list', 'Str']),
+      ('B3(x) = ArgMinK(x, 2);\nTop() B3= n -> v :- S(n, v);', 'Top', ['list', 'Str']),
+      ('V() Max= v :- S(n, v);', 'V', 'Num'), ('V() Min= n :- S(n, v);', 'V', 'Str'), ('V() List= n :- S(n, v);', 'V', ['list', 'Str']),
+      ('V() Set= v :- S(n, v);', 'V', ['list', 'Num']), ('V() Count= n :- S(n, v);', 'V', 'Num'), ('V() += v :- S(n, v);', 'V', 'Num'),
+      ('V() = Size([1, 2]);', 'V', 'Num'), ('V() = ToString(5);', 'V', 'Str'), ('V() = Length("abc");', 'V', 'Num'),
+      ('V() = Range(3);', 'V', ['list', 'Num']), ('V() = Join(["a", "b"], "-");', 'V', 'Str'), ('V() = Greatest(1, 2);', 'V', 'Num'),
+      ('V() = Least("a", "b");', 'V', 'Str'), ('V() = Abs(0 - 2);', 'V', 'Num'), ('V() = Split("a,b", ",");', 'V', ['list', 'Str']),
+      ('V() = Substr("abcd", 1, 2);', 'V', 'Str'), ('V() = ToInt64("5");', 'V', 'Num'), ('V() = Element([7, 8], 1);', 'V', 'Num'),
+      ('V() = ArrayConcat([1], [2]);', 'V', ['list', 'Num']), ('V() = Coalesce(null, 3);', 'V', 'Num'), ('V() = IsNull(3);', 'V', 'Bool'),
+      ('V() AnyValue= n :- S(n, v);', 'V', 'Str'), ('V() Array= v -> n :- S(n, v);', 'V', ['list', 'Str'])]
+  stats['builtin_signature_cases'] = 0
+  bc = BUILTIN_CASES if tier == 'thorough' else BUILTIN_CASES[:4] + fam_r.sample(BUILTIN_CASES[4:], 8)
+  for body, pname, ty in bc:
+    text = HEADER + 'S("a", 3);\nS("b", 7);\nS("c", 5);\n' + body + '\n'
+    fc = full_check(text, [pname], compile_preds=True)
+    stats['builtin_signature_cases'] += 1
+    want = 'type %s() = %s;' % (pname, render_type(ty))
+    if fc['status'] != 'ok' or fc['sigs'].get(pname) != want:
+      report('builtin-signature:%s' % common.short_hash(body),
+             {'kind': 'signature', 'text': text, 'expected': {pname: want}, 'observed': fc,
+              'law': '(a) aggregates and built-ins have their documented result types'})
+      continue
+    st, hdr, rows = logica_run.run_pred(text, pname)
+    if st == 'ok' and rows and not all(conforms(row[-1], ty) for row in rows):
+      report('builtin-value:%s' % common.short_hash(body),
+             {'kind': 'values', 'text': text, 'expected': {pname: want}, 'observed': [list(r_) for r_ in rows][:3],
+              'law': '(c) the value an aggregate / built-in returns inhabits its inferred type'})
+
   for name, body, exp, n_comb in FIXED:
     text = HEADER + body
     fc = full_check(text, list(exp), compile_preds=True)
